@@ -36,7 +36,7 @@ pub struct Case {
     pub histories: Vec<Vec<[u8; 8]>>,
 }
 
-fn conv_spec() -> impl Strategy<Value = crate::history::ConvSpec> {
+fn conv_spec(reser_w: u32) -> impl Strategy<Value = crate::history::ConvSpec> {
     (
         0u8..3,
         prop_oneof![3 => Just(0u8), 1 => 0u8..3],
@@ -45,7 +45,7 @@ fn conv_spec() -> impl Strategy<Value = crate::history::ConvSpec> {
         0u8..6,
         any::<u8>(),
         any::<u8>(),
-        prop_oneof![2 => Just(0u8), 1 => 1u8..=3],
+        prop_oneof![2 => Just(0u8), reser_w => 1u8..=3],
         0u8..4,
         0u8..3,
     )
@@ -64,8 +64,13 @@ fn conv_spec() -> impl Strategy<Value = crate::history::ConvSpec> {
 
 /// 1..5 interleaved conversations (each with at most one deviation) followed by free deliveries
 fn history() -> impl Strategy<Value = Vec<[u8; 8]>> {
+    history_with(1)
+}
+
+/// `reser_w` : 2 = odds that a conversation saves and restores a kept state after one of its steps
+pub fn history_with(reser_w: u32) -> impl Strategy<Value = Vec<[u8; 8]>> {
     (
-        prop::collection::vec(conv_spec(), 1..6),
+        prop::collection::vec(conv_spec(reser_w), 1..6),
         prop::collection::vec(any::<u8>(), 24),
         prop::collection::vec(history_op(), 0..8),
     )
@@ -357,7 +362,7 @@ pub fn check(s: &'static dyn Proto, c: &Case, st: &mut Stats, _k: &KnownFindings
 
 pub const BUDGET: Budget = Budget {
     quick: (8, 5, 3),
-    thorough: (160, 80, 40),
+    thorough: (400, 200, 100),
     shrink: 6,
 };
 
